@@ -18,8 +18,8 @@ proved where the callbacks are modelled (C13, C14) and otherwise only searched b
 harness (`harness/c11.go`), which says so in the evidence.
 
 END-TO-END totality (`call_total_<f>`: `Fn.Call` on ANY list of well-formed values returns a value
-or an ordinary error) is proved for 42 functions: `hasindex` (slice d11) and, in slice d11b, `keys`,
-`values`, `reverse`, `coalescelist`, `compact`, `chunklist`, `index`, `range`, the 16 number / bool
+or an ordinary error) is proved for 43 functions: `hasindex` (slice d11) and, in slice d11b, `keys`,
+`values`, `reverse`, `coalescelist`, `compact`, `chunklist`, `index`, `range`, `assertnotnull`, the 16 number / bool
 functions of `D11b.table`, the 15 string / time functions of `D11b.glueTable` (for every library) and `log`, `pow`
 (for every answer of the math library).
 `merge` is a counterexample (`call_total_merge_counterexample`).  For all other functions the
@@ -36,6 +36,7 @@ import CtyModel.Lemmas.d11bNum
 import CtyModel.Lemmas.d11bSeq
 import CtyModel.Lemmas.d11bStr
 import CtyModel.Lemmas.d11bIndex
+import CtyModel.Lemmas.d11bMisc
 import CtyModel.Props.C10
 namespace CtyModel
 namespace C11
@@ -709,6 +710,18 @@ theorem call_total_log_pow (nfc : String → Bool) :
       (∀ w, (call (e.2.2 lib).spec ((e.2.2 lib).tf E) ((e.2.2 lib).impl E) args).1 ≠ .err (.panicError w)) :=
   fun e he lib => D11b.callTotal_mathTable e he lib
 
+/-- **`assertnotnull` is total** (conversion.go `AssertNotNullFunc`; `Type` answers the argument's type, `Impl` the
+argument, the protocol refuses null) … -/
+theorem call_total_assertnotnull (nfc : String → Bool) (args : List Value) (hargs : ∀ a ∈ args, a.WF nfc = true) :
+    (∀ w, (call D11b.assertNotNullF.spec D11b.assertNotNullType D11b.assertNotNullImpl args).1 ≠ .panic w) ∧
+    (∀ w, (call D11b.assertNotNullF.spec D11b.assertNotNullType D11b.assertNotNullImpl args).1 ≠ .err (.panicError w)) :=
+  D11b.callTotal_assertNotNull {} args hargs
+
+/-- … and its `Type` callback — one of the six that `unmodelled_type_callbacks` lists as not covered by the
+table-wide monotonicity theorem — is monotone: with `type_only_prediction_sound`, a type checker working with
+placeholders never contradicts `assertnotnull` -/
+theorem typeMono_assertnotnull : TypeMono D11b.assertNotNullType := D11b.typeMono_assertNotNull
+
 theorem string_functions_listed :
     D11b.glueTable.map (·.2.1) = ["UpperFunc", "LowerFunc", "ReverseFunc", "TitleFunc", "TrimSpaceFunc", "ChompFunc",
       "TrimFunc", "TrimPrefixFunc", "TrimSuffixFunc", "ReplaceFunc", "RegexReplaceFunc", "SplitFunc", "IndentFunc",
@@ -773,12 +786,17 @@ theorem d11b_specs_are_table_entries :
       | some s, some sy => D11b.specMatches (e.2.2 fun _ _ => .nan).spec s && (sy.staticType == some "cty.Number") &&
           (sy.refine == "refineNonNull") && (e.2.2 fun _ _ => .nan).spec.refine.isSome
       | _, _ => false) = true ∧
+    (D11b.dynTable.all fun e =>
+      match Std.find? e.2.1, Std.syntax? e.2.1 with
+      | some s, some sy => D11b.specMatches e.2.2.spec s && sy.staticType.isNone &&
+          ((sy.refine == "refineNonNull") == e.2.2.spec.refine.isSome)
+      | _, _ => false) = true ∧
     (D11b.collTable.all fun e =>
       match Stdlib.byName e.1, Std.find? e.2, Std.syntax? e.2 with
       | some f, some s, some sy => D11b.specMatches f.spec s && ((sy.refine == "refineNonNull") == f.spec.refine.isSome) &&
           ((sy.refine == "none") == f.spec.refine.isNone)
       | _, _, _ => false) = true := by
-  refine ⟨?_, ?_, ?_, ?_⟩ <;> decide
+  refine ⟨?_, ?_, ?_, ?_, ?_⟩ <;> decide
 
 /-- the hypothesis of the totality theorems is met by non-trivial argument lists, and the calls do
 something: `min(3, -2)` answers a negative number; a map under a mark is a well-formed argument of `keys` -/
@@ -824,7 +842,8 @@ theorem call_total_merge_counterexample : ¬ CallTotalMerge := fun h => by
 
 /-- the Go variables of the functions with a `call_total` theorem above -/
 def totalityProved : List String :=
-  D11b.collTable.map (·.2) ++ D11b.table.map (·.2.1) ++ D11b.glueTable.map (·.2.1) ++ D11b.mathTable.map (·.2.1)
+  D11b.collTable.map (·.2) ++ D11b.table.map (·.2.1) ++ D11b.glueTable.map (·.2.1) ++ D11b.mathTable.map (·.2.1) ++
+    D11b.dynTable.map (·.2.1)
 
 /-- the exported functions WITHOUT one: for them "never a panic, never a PanicError" is searched by the
 harness only (`merge` is a proved counterexample) -/
@@ -832,13 +851,13 @@ def totalityOnlySearched : List String :=
   (Generated.stdlibSyntax.map (·.var)).filter fun v => !totalityProved.contains v
 
 set_option maxRecDepth 16384 in
-/-- 42 of the 80 exported functions are proved total end to end, every one of them is an entry of the
-regenerated syntax table, and these 38 are not (regenerated: a function added to cty/function/stdlib shows
+/-- 43 of the 80 exported functions are proved total end to end, every one of them is an entry of the
+regenerated syntax table, and these 37 are not (regenerated: a function added to cty/function/stdlib shows
 up in the second list and fails this theorem until the list is updated) -/
 theorem totality_bookkeeping :
-    totalityProved.length = 42 ∧ totalityProved.all (fun v => (Generated.stdlibSyntax.map (·.var)).contains v) = true ∧
+    totalityProved.length = 43 ∧ totalityProved.all (fun v => (Generated.stdlibSyntax.map (·.var)).contains v) = true ∧
     totalityOnlySearched =
-      ["AssertNotNullFunc", "BytesLenFunc", "BytesSliceFunc", "CSVDecodeFunc", "CoalesceFunc", "ConcatFunc", "ContainsFunc",
+      ["BytesLenFunc", "BytesSliceFunc", "CSVDecodeFunc", "CoalesceFunc", "ConcatFunc", "ContainsFunc",
        "DistinctFunc", "ElementFunc", "EqualFunc", "FlattenFunc", "FormatDateFunc", "FormatFunc", "FormatListFunc",
        "GreaterThanFunc", "GreaterThanOrEqualToFunc", "JSONDecodeFunc", "JSONEncodeFunc", "JoinFunc", "LengthFunc",
        "LessThanFunc", "LessThanOrEqualToFunc", "LookupFunc", "MergeFunc", "NotEqualFunc", "ParseIntFunc",
